@@ -59,6 +59,9 @@ def main():
     chk.obligation("regen:hashsites", "translator", not errors, str(errors))
     ok_h, herr = common.build_harness()
     chk.obligation("build:harness", "build", ok_h, herr[-300:])
+    okm, outm = common.lake_build(["sccmodel"])
+    chk.obligation("build:sccmodel", "build", okm, outm[-400:])
+    ok_h = ok_h and okm
     ok1, _, out1 = common.prove(chk, "C17", ["Scc.Generated.HashSites", "Scc.Props.C17Hash"], THEOREMS_HASH)
     ok2 = True
     out2 = ""
@@ -85,6 +88,7 @@ def main():
             cwd = os.path.join(WORK, "c17_cwd%d" % k)
             os.makedirs(cwd, exist_ok=True)
             runs.append(run_proc(order, envs[k % len(envs)], cwd))
+        mdl = common.model()
         for f in files:
             base = runs[0].get(f)
             if not base:
@@ -94,6 +98,18 @@ def main():
                 ninst = base["S1"][1].count("(data ") + base["S1"][1].count("(codata ")
             chk.count(f, nontrivial=ninst >= 2)
             tnames = mangled_type_names(base)
+            # label canonicalisation (needed because the processes compile the files in different orders, i.e.
+            # with different label-counter values) is ill-defined when user names imitate generated labels
+            # (`B_19`): for such programs (decidable condition LabelSafe of Props/C14Generic) the assembly
+            # stages are compared only up to S5; the counter-independence theorem has the same hypothesis
+            label_safe = True
+            if "S5" in base and base["S5"][0] == "OK":
+                sp = os.path.join(WORK, "c17_S5.sexp")
+                open(sp, "w").write(base["S5"][1])
+                rep = mdl.ask("typ labelsafe %s" % sp)
+                label_safe = not (rep and rep[0] == "OK false")
+                if not label_safe:
+                    chk.notes["label_unsafe_programs"] = chk.notes.get("label_unsafe_programs", 0) + 1
             for k in range(1, K):
                 other = runs[k].get(f)
                 if not other:
@@ -101,6 +117,8 @@ def main():
                 for stage in ("S0", "S1", "S2", "S2u", "S3", "S4", "S5", "S6x", "S7x", "S6a", "S7a", "S7r"):
                     a, b = base.get(stage), other.get(stage)
                     if a is None and b is None:
+                        continue
+                    if not label_safe and stage[:2] in ("S6", "S7"):
                         continue
                     chk.corr["compared"] += 1
                     if a is None or b is None or a[0] != b[0]:
@@ -121,10 +139,11 @@ def main():
                                       "file=%s\nstage=%s\nprocess0=%s\nprocess%d=%s\nreplay: run `stages %s` in several fresh scc-harness processes and compare\n"
                                       % (f, stage, (a or ("", ""))[1][:3000], k, (b or ("", ""))[1][:3000], f))
                         break
+        mdl.close()
         chk.sample({"file": files[0], "processes": K})
     chk.obligation("oracle:multi-process-byte-equality", "correspondence", chk.corr["disagreements"] == 0,
                    "%d stage comparisons, %d differences" % (chk.corr["compared"], chk.corr["disagreements"]))
-    if (errors or not ok1 or not ok2) and not found:
+    if (errors or not ok1 or not ok2) and not chk.has_failing_input():
         what = [("%s (%s): %s" % (n, r, d)) for n, r, ok, d in chk.obligations if not ok]
         chk.violation("C17:unproved", "proof obligations broken, no differing run found: " + "; ".join(what)[:500],
                       "unproved.txt", "\n".join(what) + "\n" + (out1 + out2)[-3000:], found_input=False)
